@@ -138,12 +138,19 @@ type instance struct {
 }
 
 const (
-	memPages  = 9
 	inBase    = 0
-	outBase   = 0x60000 // room for 8192 tuples of three 16-byte operand slots
 	maxChunk  = 8192
 	slotBytes = 16
 )
+
+// memory layout: operand area at 0 (three 16-byte slots per tuple at most), result area behind it.
+// Modules that evaluate few tuples per call get a one-page memory (instantiation zeroes it).
+func layout(small bool) (pages uint32, outBase uint32, chunk int) {
+	if small {
+		return 1, 0xc000, 1024
+	}
+	return 9, 0x60000, maxChunk // also room for the 16-bit sweep: 128 KiB in, 128 KiB out
+}
 
 func flatTypes(ps []refnum.Param, skip int) []byte {
 	var r []byte
@@ -204,13 +211,14 @@ func pushConst(b *wasmenc.B, t refnum.Type, v refnum.V) {
 //	f<k>  : the one-instruction function of instance k (exported; v128 values travel as two i64)
 //	run   : (k, n) loops over n operand tuples in memory at inBase (one 16-byte slot per operand),
 //	        calls f<k> through the table and stores the results at outBase + 16*i
-func buildModule(op *refnum.Op, variant string, insts []instance) []byte {
+func buildModule(op *refnum.Op, variant string, insts []instance, small bool) []byte {
 	m := &wasmenc.Module{}
+	memPages, outBase, _ := layout(small)
 	src := sources(variant, len(op.Params))
 	fp := funcParams(op, src)
 	fr := flatTypes([]refnum.Param{op.Result}, -1)
 	ft := m.AddType(fp, fr)
-	m.Mems = [][]byte{wasmenc.Limits(memPages, memPages, false)}
+	m.Mems = [][]byte{wasmenc.Limits(memPages, int64(memPages), false)}
 	m.Exports = append(m.Exports, wasmenc.Export{Name: "mem", Kind: wasmenc.KMem, Idx: 0})
 	m.Tables = [][]byte{wasmenc.TableType(wasmenc.FuncRef, uint32(len(insts)), int64(len(insts)))}
 	var fidx []uint32
@@ -262,7 +270,7 @@ func buildModule(op *refnum.Op, variant string, insts []instance) []byte {
 	// run(k, n): locals 2=i 3=pin 4=pout 5..=result temps
 	stride := int32(slotBytes * len(op.Params))
 	b := wasmenc.NewB()
-	b.I32Const(outBase).LocalSet(4)
+	b.I32Const(int32(outBase)).LocalSet(4)
 	b.Block().Loop()
 	b.LocalGet(2).LocalGet(1).Raw(wasmenc.OpI32GeU).BrIf(1)
 	if hasMem(src) {
@@ -345,10 +353,12 @@ type loaded struct {
 	run     api.Function
 	fs      []api.Function
 	inBuf   []byte
+	outBase uint32
+	chunk   int
 }
 
-func load(op *refnum.Op, variant, engine string, insts []instance) (*loaded, error) {
-	bin := buildModule(op, variant, insts)
+func load(op *refnum.Op, variant, engine string, insts []instance, small bool) (*loaded, error) {
+	bin := buildModule(op, variant, insts, small)
 	rt := runtimeFor(engine)
 	cm, err := rt.CompileModule(ctx, bin)
 	if err != nil {
@@ -360,6 +370,7 @@ func load(op *refnum.Op, variant, engine string, insts []instance) (*loaded, err
 		return nil, fmt.Errorf("instantiate %s/%s/%s: %w", op.Name, variant, engine, err)
 	}
 	l := &loaded{op: op, variant: variant, engine: engine, insts: insts, cm: cm, mod: mod, run: mod.ExportedFunction("run")}
+	_, l.outBase, l.chunk = layout(small)
 	for k := range insts {
 		l.fs = append(l.fs, mod.ExportedFunction("f"+strconv.Itoa(k)))
 	}
@@ -448,7 +459,7 @@ func (l *loaded) bulk(k int, tuples []refnum.V, n int) ([]byte, error) {
 	if _, out := wz.SafeCall(ctx, l.run, uint64(k), uint64(n)); out.Kind != wz.KOK {
 		return nil, fmt.Errorf("%s", out.String())
 	}
-	res, ok := mem.Read(outBase, uint32(n*slotBytes))
+	res, ok := mem.Read(l.outBase, uint32(n*slotBytes))
 	if !ok {
 		return nil, fmt.Errorf("harness: out-area read failed")
 	}
@@ -466,6 +477,10 @@ type Case struct {
 	Args     []string `json:"args"`          // one "lo" or "lo:hi" hex per operand (const operand included)
 	Expected string   `json:"expected"`
 	Got      string   `json:"got"`
+	// ViaLoop: the wrong result was only seen through the in-guest loop ("run": the generic
+	// loop calling the one-instruction function, "sweep": the 16-bit sweep loop); replay then
+	// goes the same way.
+	ViaLoop string `json:"via_loop,omitempty"`
 }
 
 func fmtV(p refnum.Param, v refnum.V) string {
@@ -536,13 +551,55 @@ func execCase(c Case) (ok bool, msg string, err error) {
 		}
 		in.Const = args[ci]
 	}
-	l, err := load(op, c.Variant, c.Engine, []instance{in})
+	l, err := load(op, c.Variant, c.Engine, []instance{in}, c.ViaLoop != "sweep")
 	if err != nil {
 		return false, "", err
 	}
 	defer l.close()
 	want := op.Eval(args, imm)
-	got := l.direct(0, args)
+	var got observed
+	switch c.ViaLoop {
+	case "run":
+		if want.Trap != "" {
+			return false, "", fmt.Errorf("loop replay of a trapping tuple")
+		}
+		var rep []refnum.V
+		for i := 0; i < 64; i++ {
+			rep = append(rep, args...)
+		}
+		res, err := l.bulk(0, rep, 64)
+		if err != nil {
+			got = observed{Trap: "!loop: " + err.Error()}
+			break
+		}
+		for i := 0; i < 64; i++ {
+			got = observed{V: refnum.V{binary.LittleEndian.Uint64(res[i*16:]), binary.LittleEndian.Uint64(res[i*16+8:])}}
+			if !judge(op, want, got) {
+				break
+			}
+		}
+	case "sweep":
+		sw := l.mod.ExportedFunction("sweep")
+		if sw == nil || len(args) != 2 {
+			return false, "", fmt.Errorf("no sweep function for %s", c.Op)
+		}
+		in := make([]byte, 131072)
+		for y := 0; y < 65536; y++ {
+			binary.LittleEndian.PutUint16(in[2*y:], uint16(y))
+		}
+		j := int(args[1][0]&0xffff) / 8
+		binary.LittleEndian.PutUint64(in[16*j:], args[1][0])
+		binary.LittleEndian.PutUint64(in[16*j+8:], args[1][1])
+		l.mod.Memory().Write(inBase, in)
+		if _, out := wz.SafeCall(ctx, sw, args[0][0]&0xffff, 131072); out.Kind != wz.KOK {
+			got = observed{Trap: "!" + out.String()}
+			break
+		}
+		res, _ := l.mod.Memory().Read(l.outBase+uint32(16*j), 16)
+		got = observed{V: refnum.V{binary.LittleEndian.Uint64(res), binary.LittleEndian.Uint64(res[8:])}}
+	default:
+		got = l.direct(0, args)
+	}
 	if judge(op, want, got) {
 		return true, "", nil
 	}
